@@ -1,7 +1,7 @@
 //! Native cross-check for C07 at data-set level on the compiled code (stand-in; not a deductive result):
 //! the real `DataSetReader` (Explicit VR Little Endian) on streams that contain an element of every VR
-//! with an odd declared length (1-13), at top level and inside a defined-length item of a defined-length
-//! sequence, each followed by a sentinel element. Accept: exactly the declared bytes are the value and
+//! with an odd declared length (1-13), at top level, inside a defined-length item of a defined-length
+//! sequence, and alone inside an item whose own declared length is odd, each followed by a sentinel element. Accept: exactly the declared bytes are the value and
 //! the sentinel is read at the right place; NextEven (stream written with one more byte per odd value):
 //! one more byte is consumed and the sentinel is read at the right place; Fail: the first token is an
 //! error. Defined-length items and sequences end exactly where their length says (ItemEnd / SequenceEnd
@@ -107,6 +107,39 @@ fn main() {
                     continue;
                 }
                 if cur.position() as usize != stream.len() { t.fail(format!("{}: {} of {} bytes consumed at the end", label, cur.position(), stream.len())); }
+                // an ITEM with an odd declared length (only its odd-length element inside): the item's end must be computed from the
+                // length the strategy assumes (declared for Accept, declared + 1 for NextEven)
+                t.cases += 1;
+                let mut item2 = vec![0xFE, 0xFF, 0x00, 0xE0];
+                item2.extend_from_slice(&((8 + if short_form(vr) { 0 } else { 4 } + len) as u32).to_le_bytes());
+                item2.extend_from_slice(&odd);
+                let mut stream2 = vec![0x08, 0x00, 0x15, 0x11, b'S', b'Q', 0, 0, 0xFF, 0xFF, 0xFF, 0xFF];
+                stream2.extend_from_slice(&item2);
+                stream2.extend_from_slice(&[0xFE, 0xFF, 0xDD, 0xE0, 0, 0, 0, 0]);
+                stream2.extend_from_slice(&sent);
+                let mut cur2 = Cursor::new(&stream2[..]);
+                let mut toks2: Vec<String> = Vec::new();
+                let mut err2 = None;
+                {
+                    let reader = match DataSetReader::new_with_ts_options(&mut cur2, &ts, options) { Ok(r) => r, Err(e) => { t.fail(format!("{}: no reader: {}", label, e)); continue; } };
+                    for tok in reader {
+                        match tok {
+                            Ok(DataToken::ElementHeader(h)) => toks2.push(format!("H{}", h.tag)),
+                            Ok(DataToken::PrimitiveValue(v)) => toks2.push(format!("V{}", v.calculate_byte_len())),
+                            Ok(DataToken::SequenceStart { tag, .. }) => toks2.push(format!("S{}", tag)),
+                            Ok(DataToken::ItemStart { .. }) => toks2.push("I".to_string()),
+                            Ok(DataToken::ItemEnd) => toks2.push("i".to_string()),
+                            Ok(DataToken::SequenceEnd) => toks2.push("s".to_string()),
+                            Ok(other) => toks2.push(format!("?{:?}", other)),
+                            Err(e) => { err2 = Some(e.to_string()); break; }
+                        }
+                        if toks2.len() > 64 { break; }
+                    }
+                }
+                let want2: Vec<String> = vec!["S(0008,1115)".to_string(), "I".to_string(), "H(0009,1001)".to_string(), format!("V{}", vlen), "i".to_string(), "s".to_string(), "H(0010,0020)".to_string(), "V2".to_string()];
+                if err2.is_some() || toks2 != want2 || cur2.position() as usize != stream2.len() {
+                    t.fail(format!("{} inside an item of odd declared length: tokens {:?} (error {:?}, {} of {} bytes consumed), expected {:?}", label, toks2, err2, cur2.position(), stream2.len(), want2));
+                }
             }
         }
     }
